@@ -76,9 +76,16 @@ def cxx_set(f, p):
     return ""
 
 
+def ret_self(f):
+    """a method returning its own class by pointer/reference returns the object it is called on"""
+    return bool(f.cls) and len(f.ret) > 1 and f.ret[1] == f.cls and not f.static and not f.const and f.ret[0] in ("classref", "classptr")
+
+
 def cxx_return(f):
     k = f.ret[0]
     c = f.consts.get("ret")
+    if ret_self(f):
+        return "return %sthis;" % ("*" if k == "classref" else "")
     if k == "void":
         return ""
     if k == "native":
@@ -141,6 +148,41 @@ def cxx_function(f, in_class):
     return "    %s {\n        %s\n    }" % (head, "\n        ".join(b for b in body if b))
 
 
+def decoys(spec, f, in_class):
+    """ordinary overloads the library has but the description does not wrap.  A correct wrapper never reaches them:
+    (1) for a `const std::string &` / `const std::string *` / by-value `std::string` parameter: the same signature with `bool` and with
+    `const char *` (what a C string converts to without the documented std::string construction); (2) for a function
+    template: a non-template function with the parameter types of the first instantiation (chosen by overload resolution
+    when the call has no explicit template arguments)."""
+    if f.kind != "func" or f.defaults or f.ret[0] not in ("void", "native", "bool", "tparam"):
+        return []
+    if f.fmt_suffix is not None or spec.positions().get((id(f), 0), "") != "":
+        return []          # member of a wrapped overload set
+    out = []
+    pre = "    %s" % ("static " if f.static else "")
+    if not in_class:
+        pre = "    inline "
+    cst = " const" if f.const else ""
+
+    def text(params, ret):
+        body = 'std::printf("C %d DECOY\\n"); %s' % (f.fid, "" if ret == "void" else "return %s();" % ret)
+        return "%s%s %s(%s)%s { %s }" % (pre, ret, f.name, ", ".join(params), cst, body)
+    if f.template:
+        tm = cxxgen.Spec.tmap(f, f.template[0])
+        params = [(("const " if p.const else "") + tm.get(p.t, p.t) + {"val": " ", "ref": " &", "ptr": " *"}[p.mode] + p.name)
+                  for p in f.params]
+        ret = tm.get(f.ret[1], f.ret[1]) if len(f.ret) > 1 else "void"
+        return [text(params, ret)]
+    idx = [i for i, p in enumerate(f.params) if p.fam == "string" and ((p.const and p.mode in ("ref", "ptr")) or p.mode == "val")]
+    if not idx:
+        return []
+    ret = cxxgen.ret_cxx(f.ret)
+    for alt in ("bool ", "const char *"):
+        params = [(alt + p.name) if i == idx[0] else p.cxx_decl() for i, p in enumerate(f.params)]
+        out.append(text(params, ret))
+    return out
+
+
 def subject_header(spec):
     out = ["#ifndef SUBJECT_%s_HPP" % spec.name.upper(), "#define SUBJECT_%s_HPP" % spec.name.upper(),
            "#include <cstdio>", "#include <cstring>", "#include <string>",
@@ -160,6 +202,7 @@ def subject_header(spec):
         for f in spec.funcs:
             if f.cls == c:
                 out.append(cxx_function(f, True))
+                out += decoys(spec, f, True)
         out.append("};")
     if spec.tclass:
         c = spec.tclass[0]
@@ -172,11 +215,13 @@ def subject_header(spec):
     for f in spec.funcs:
         if f.cls is None and f.ns is None:
             out.append(cxx_function(f, False))
+            out += decoys(spec, f, False)
     if spec.ns:
         out.append("namespace %s {" % spec.ns)
         for f in spec.funcs:
             if f.ns:
                 out.append(cxx_function(f, False))
+                out += decoys(spec, f, False)
         out.append("}")
     out.append("#endif")
     return "\n".join(out) + "\n"
@@ -385,8 +430,21 @@ def emit_call(E, f, cname, ndef, tt, rnd, self_obj=None):
         call = "%s(%s)" % (cname, ", ".join(args))
         lines.append("%s rv; %s *r = %s;" % (cap, cap, call))
         lines.append("int idr = %s(r);" % iname)
+        if ret_self(f):
+            c = self_obj[1]
         exp.append("C %d this=%d" % (ifid, c))
-        rprint, rexp = 'printf("%d#%d", (int)(r == &rv), idr);', "1#%d" % c
+        # identity of the returned object: a pointer/reference result names the library's object itself (same address on
+        # every call, not owned by the caller, `*this` is the object the method was called on); a by-value result is a
+        # caller-owned copy
+        if k == "classval":
+            rprint, rexp = 'printf("%d#%d own=%d", (int)(r == &rv), idr, (int)(rv.idtor != 0));', "1#%d own=1" % c
+        else:
+            rprint = ('printf("%%d#%%d st=%%d own=%%d", (int)(r == &rv), idr, (int)(lastaddr[%d] == NULL || lastaddr[%d] == rv.addr), '
+                      '(int)(rv.idtor != 0)); lastaddr[%d] = rv.addr;' % (f.fid, f.fid, f.fid))
+            rexp = "1#%d st=1 own=0" % c
+            if ret_self(f):
+                rprint += ' printf(" self=%%d", (int)(rv.addr == %s.addr));' % self_obj[0]
+                rexp += " self=1"
     rline = 'printf("R %d ret=");' % f.fid
     lines.append(rline + (rprint or 'printf("-");'))
     e = "R %d ret=%s" % (f.fid, rexp or "-")
@@ -405,6 +463,7 @@ def emit_call(E, f, cname, ndef, tt, rnd, self_obj=None):
 def build_driver(spec, headers, rounds):
     E = Emit(spec)
     P = spec.c_prefix()
+    E.c += ["static void *lastaddr[4096];"]
     E.c += ["static int cbk0(int x, double y) { (void)y; return x * 2 + 1; }", "static int cbk1(int x, double y) { (void)y; return x - 5; }"]
     E.c += ["static void sh_d(double v) { unsigned long long b; memcpy(&b, &v, 8); printf(\"%016llx\", b); }", "int main(void) {",
             "setvbuf(stdout, NULL, _IONBF, 0);"]
@@ -673,6 +732,9 @@ def run(ctx, thorough):
                 side, pk = "this", "%s%s" % (f.kind, ":const" if f.const else "")
             elif tok == "ret":
                 pk = "/".join(str(x) for x in f.ret)
+            if e.startswith("C ") and a.startswith("C ") and ("DECOY" in a or e.split(" ")[1] != a.split(" ")[1]):
+                # another C++ function ran than the one the C name is documented for
+                side, pk = "wrong-overload", kind_key(f)
             if "ERROR: AddressSanitizer" in res["out"] or "runtime error" in res["out"]:
                 side = "sanitizer-" + side
             ctx.fail("c02:%s:%s" % (side, pk or tok),
